@@ -220,7 +220,32 @@ fn shared_inner(w: &mut World, before: &[Op], file: &FileSpec, sender: u16, betw
                     "nonce bit"
                 }
                 3 => {
-                    rf.filename = format!("x{}", rf.filename);
+                    let par = *t as usize / 7;
+                    let orig = rf.filename.clone();
+                    rf.filename = match par % 5 {
+                        0 => format!("x{orig}"),
+                        1 => format!("{orig}x"),
+                        2 => format!("{orig} "),
+                        3 => {
+                            // the case of one ASCII letter
+                            let mut b = orig.clone().into_bytes();
+                            if let Some(i) = (0..b.len()).map(|k| (k + par / 5) % b.len().max(1)).find(|&i| b[i].is_ascii_alphabetic()) {
+                                b[i] ^= 0x20;
+                            }
+                            String::from_utf8(b).unwrap_or(orig.clone())
+                        }
+                        _ => {
+                            // one low bit of one ASCII byte
+                            let mut b = orig.clone().into_bytes();
+                            if let Some(i) = (0..b.len()).map(|k| (k + par / 5) % b.len().max(1)).find(|&i| b[i].is_ascii_alphanumeric()) {
+                                b[i] ^= 1;
+                            }
+                            String::from_utf8(b).unwrap_or(orig.clone())
+                        }
+                    };
+                    if rf.filename == orig {
+                        rf.filename = format!("x{orig}");
+                    }
                     "file name"
                 }
                 4 => {
@@ -232,7 +257,24 @@ fn shared_inner(w: &mut World, before: &[Op], file: &FileSpec, sender: u16, betw
                     "content hash"
                 }
                 _ => {
-                    rf.scheme_version = "mip04-v1".into();
+                    let par = *t as usize / 7;
+                    let orig = rf.scheme_version.clone();
+                    rf.scheme_version = match par % 4 {
+                        0 => "mip04-v1".into(),
+                        1 => "mip04-v3".into(),
+                        _ => {
+                            // one bit of one byte (bits 0..6: the result stays ASCII; bit 5 is the letter case)
+                            let mut b = orig.clone().into_bytes();
+                            if !b.is_empty() {
+                                let i = (par / 4) % b.len();
+                                b[i] ^= 1 << ((par / 4 / b.len().max(1)) % 7);
+                            }
+                            String::from_utf8(b).unwrap_or_else(|_| "mip04-v1".into())
+                        }
+                    };
+                    if rf.scheme_version == orig {
+                        rf.scheme_version = "mip04-v1".into();
+                    }
                     "scheme version"
                 }
             };
